@@ -270,3 +270,89 @@ Print Assumptions C19_history_consistent_generated.
 Theorem C19_history_check_generated : forall i l, history_ok (model_calls i l) (spec_singles i l) = true.
 Proof. exact history_check_generated. Qed.
 Print Assumptions C19_history_check_generated.
+
+(* ---- fifth round: the constructor's other keywords (json_formatter=, content_type=, charset=).
+   [model_x] runs the regenerated constructors with the formatter and the keywords, then the
+   regenerated prepare / __call__; [spec_x] is the hand-written reference with them. *)
+Theorem C19_generated_is_spec_x : forall x, model_x x = spec_x x.
+Proof. exact generated_is_spec_x. Qed.
+Print Assumptions C19_generated_is_spec_x.
+
+Theorem C19_generated_object_is_model_x : forall c x, gen_obj_x c x = ref_obj_x c x.
+Proof. exact gen_obj_is_model_x. Qed.
+Print Assumptions C19_generated_object_is_model_x.
+
+(* prepare() on an object without a body whatever Content-Type / charset the constructor's keywords left *)
+Theorem C19_generated_prepare_is_model_x : forall neg c x o,
+  fresh_like_x c x o ->
+  i_offers (x_in x) = neg (env_get accept_key accept_default (i_environ (x_in x))) offers ->
+  gen_prepare neg o (i_environ (x_in x)) = ref_prepare_x c x o.
+Proof. exact gen_prepare_is_model_x. Qed.
+Print Assumptions C19_generated_prepare_is_model_x.
+
+(* content_type= / charset= given to the constructor never show in the response: the label is
+   the negotiated form's, whatever the keywords say *)
+Theorem C19_kw_irrelevant : forall i f ck cs, spec_x (mkX i f ck cs) = spec_x (mkX i f None None).
+Proof. exact kw_irrelevant. Qed.
+Print Assumptions C19_kw_irrelevant.
+
+(* without a formatter the extended specification is the core one (every theorem above applies) *)
+Theorem C19_no_formatter_core : forall i ck cs, spec_x (mkX i None ck cs) = spec i.
+Proof. exact no_formatter_core. Qed.
+Print Assumptions C19_no_formatter_core.
+
+(* a custom formatter is consulted in the JSON form only *)
+Theorem C19_formatter_only_json : forall x, chosen_type (x_in x) <> t_json -> spec_x x = spec (x_in x).
+Proof. exact formatter_only_json. Qed.
+Print Assumptions C19_formatter_only_json.
+
+(* JSON form with a custom formatter: body template rendered in one pass, handed to the
+   formatter, json.dumps of its members; label application/json, ASCII body that reads back
+   (reference RFC 8259 reader) to exactly the members *)
+Theorem C19_formatter_json_valid : forall x c f o,
+  find_cls (i_cls (x_in x)) classes = Some c -> c_empty c = false -> chosen_type (x_in x) = t_json ->
+  x_fmt x = Some f -> spec_x x = Some (Ok o) ->
+  exists body members,
+    substitute (tmpl_of c (x_in x)) (build_args spec_policy bj c (x_in x) (is_custom c (x_in x))) = Ok body /\
+    apply_fmt f (status_of c) body (c_title c) (i_environ (x_in x)) [] = Ok members /\
+    o_ctype o = t_json /\ o_body o = json_object members /\ ascii (o_body o) /\
+    (members <> [] -> forallb kv_valid members = true -> json_read_object (o_body o) = Some members).
+Proof. exact formatter_json_valid. Qed.
+Print Assumptions C19_formatter_json_valid.
+
+(* a formatter that raises KeyError yields no response at all (never a differently rendered body
+   under the application/json label) *)
+Theorem C19_formatter_error_no_response : forall x c f body,
+  find_cls (i_cls (x_in x)) classes = Some c -> c_empty c = false -> chosen_type (x_in x) = t_json ->
+  x_fmt x = Some f ->
+  substitute (tmpl_of c (x_in x)) (build_args spec_policy bj c (x_in x) (is_custom c (x_in x))) = Ok body ->
+  apply_fmt f (status_of c) body (c_title c) (i_environ (x_in x)) [] = KeyErr ->
+  spec_x x = Some KeyErr.
+Proof. exact formatter_error_no_response. Qed.
+Print Assumptions C19_formatter_error_no_response.
+
+(* histories with formatter / keywords *)
+Theorem C19_generated_history_is_model_x : forall x l, model_calls_x x l = ref_calls_x x l.
+Proof. exact generated_history_is_model_x. Qed.
+Print Assumptions C19_generated_history_is_model_x.
+
+Theorem C19_history_check_generated_x : forall x l, history_ok (model_calls_x x l) (spec_singles_x x l) = true.
+Proof. exact history_check_generated_x. Qed.
+Print Assumptions C19_history_check_generated_x.
+
+Theorem C19_history_consistent_generated_x : forall x l k o,
+  nth_error (model_calls_x x l) k = Some (Some (Ok o)) ->
+  exists j s, (j <= k)%nat /\ nth_error l j = Some s /\ model_x (with_call_x x s) = Some (Ok o).
+Proof. exact history_consistent_generated_x. Qed.
+Print Assumptions C19_history_consistent_generated_x.
+
+(* the whole response of every default-template class in the plain-text form: status line, blank
+   line, explanation, three newlines, the detail verbatim, newline, the comment verbatim, newline *)
+Theorem C19_plain_body_shape : forall i c,
+  find_cls (i_cls i) classes = Some c -> c_empty c = false -> c_default_tmpl c = true -> i_tmpl i = None ->
+  chosen_type i <> t_html -> chosen_type i <> t_json ->
+  spec i = Some (rmap (mkOutput (status_of c) t_plain cs_utf8)
+    (utf8_bytes (status_of c ++ [10; 10] ++
+                 expl_of c i ++ [10; 10; 10] ++ or_empty (i_detail i) ++ [10] ++ or_empty (i_comment i) ++ [10]))).
+Proof. exact plain_body_shape. Qed.
+Print Assumptions C19_plain_body_shape.
